@@ -270,7 +270,10 @@ class Runtime(object):
 # Types registered by libgobject/libgio themselves that the scenarios refer to.
 # 'k' on a root gives the fundamental; derived types inherit it through 'parent'.
 BUILTIN = [
-    {'k': 'object', 'name': 'GObject'},
+    {'k': 'object', 'name': 'GObject',
+     'signals': [{'name': 'notify', 'return': 'void', 'params': ['GParam'],
+                  'flags': G_SIGNAL_RUN_FIRST | G_SIGNAL_NO_RECURSE | G_SIGNAL_DETAILED | G_SIGNAL_ACTION |
+                  G_SIGNAL_NO_HOOKS}]},
     {'k': 'object', 'name': 'GInitiallyUnowned', 'parent': 'GObject'},
     {'k': 'object', 'name': 'GCancellable', 'parent': 'GObject'},
     {'k': 'interface', 'name': 'GInterface'},
